@@ -43,6 +43,11 @@ func init() {
 				Edits: []Edit{{File: "platform/definition.go", Old: "p.OnOpen = v.OnOpen", New: "p.OnOpen = v.OnClose"}}},
 			{ID: "C17-merge-drop", Desc: "variant merge forgets default desired level", Rule: "C17/merge",
 				Edits: []Edit{{File: "platform/definition.go", Old: "p.DefaultDesiredPrivilegeLevel = v.DefaultDesiredPrivilegeLevel", New: "_ = v.DefaultDesiredPrivilegeLevel"}}},
+			{ID: "C17-acquire-default-frozen", Desc: "on-open acquire-priv falls back to the definition's default level captured when the options were built", Rule: "C17/acquire-default",
+				Edits: []Edit{{File: "platform/onx.go", Old: "func (o *onXDefinitions) asNetworkOnX() func(d *network.Driver) error {", New: "func (o *onXDefinitions) asNetworkOnX(defaultTarget string) func(d *network.Driver) error {"},
+					{File: "platform/onx.go", Old: "\t\t\t\ttarget := d.DefaultDesiredPriv\n", New: "\t\t\t\ttarget := defaultTarget\n"},
+					{File: "platform/definition.go", Old: "options.WithNetworkOnOpen(p.NetworkOnOpen.asNetworkOnX())", New: "options.WithNetworkOnOpen(p.NetworkOnOpen.asNetworkOnX(p.DefaultDesiredPrivilegeLevel))"},
+					{File: "platform/definition.go", Old: "options.WithNetworkOnClose(p.NetworkOnClose.asNetworkOnX())", New: "options.WithNetworkOnClose(p.NetworkOnClose.asNetworkOnX(p.DefaultDesiredPrivilegeLevel))"}}},
 			{ID: "C17-op-unknown", Desc: "network switch no longer handles driver.send-command", Rule: "C17/steps",
 				Edits: []Edit{{File: "platform/onx.go", Old: "case OpDriverSendCommand:\n\t\t\t\tc, ok", New: "case \"driver.send-cmd\":\n\t\t\t\tc, ok"}}},
 			{ID: "C17-suffix", Desc: "loader appends the wrong suffix", Rule: "C17/name-file",
@@ -59,6 +64,7 @@ func runC17(c *Ctx, r *Report) {
 	r.Rule("C17/tree", "per platform and per merged variant: map key = name; every previous-priv names a level; exactly one root; acyclic and connected; default desired level names a level; driver-type is one the constructor switches on", 15)
 	r.Rule("C17/patterns", "every level pattern, escalate-prompt and the |-joined pattern compile under RE2; escalate-auth implies a non-empty escalate-prompt", 15)
 	r.Rule("C17/steps", "every on-open/on-close step names an operation handled by the switch of its driver level, with the argument kinds that code asserts; acquire-priv targets name a level", 15)
+	r.Rule("C17/acquire-default", "an acquire-priv step without a target uses the running driver's DefaultDesiredPriv, read when the step runs", 1)
 	r.Rule("C17/options", "every option block entry uses an option name platform/options.go switches on, with a YAML value whose Go dynamic type is the one the code asserts", 1)
 	r.Rule("C17/merge", "mergeVariant assigns each mergeable section only from the same section of the variant, guarded by that section's non-empty test; all eight sections are merged", 8)
 
@@ -185,6 +191,7 @@ func runC17(c *Ctx, r *Report) {
 	r.Extra["start_only_levels"] = startOnly
 
 	checkMergeVariant(c, r)
+	checkOnXAcquireDefault(c, r)
 }
 
 func advertisedNames(c *Ctx) ([]string, bool) {
